@@ -67,6 +67,8 @@ class G:
         self.typedefs = [["T0", "T1"]]  # stack of visible typedef-name lists
         self.budget = max_nodes
         self.odd_names = True
+        self.open_tags = [[]]
+        self.closed_tags = []
 
     def on(self, feature, p=None):
         """May the feature be drawn?  (p: probability, None = caller decides)"""
@@ -94,9 +96,24 @@ class G:
 
     def push(self):
         self.typedefs.append([])
+        self.open_tags.append([])
 
     def pop(self):
         self.typedefs.pop()
+        # tags defined in the scope that ends may be defined again elsewhere
+        self.closed_tags.extend(self.open_tags.pop())
+
+    def tag(self, prefix):
+        """a tag name for a definition with a body: usually fresh; inside a function
+        sometimes the name of a tag whose scope has ended (a different type now)"""
+        if len(self.open_tags) > 1 and self.closed_tags and self.c.chance(0.25):
+            cand = [t for t in self.closed_tags if t.startswith(prefix)]
+            if cand:
+                return self.c.choice(cand)
+        name = self.fresh(prefix)
+        if len(self.open_tags) > 1:
+            self.open_tags[-1].append(name)
+        return name
 
     def spend(self, n=1):
         self.budget -= n
@@ -251,7 +268,7 @@ def gen_base(g, allow_body=True, tagdecl=False):
     ens = [(n + "a", None)]
     for i in range(c.int(0, 2)):
         ens.append((n + "bc"[i], const_expr(g, 1) if c.chance(0.5) else None))
-    return [("enum", g.fresh("E") if c.chance(0.5) else None, ens, c.chance(0.3))]
+    return [("enum", g.tag("E") if c.chance(0.5) else None, ens, c.chance(0.3))]
 
 
 def gen_struct(g, depth=1):
@@ -269,7 +286,7 @@ def gen_struct(g, depth=1):
             members.append(("decl", [("su", inner[1], None, inner[3])], []))
         else:
             members.append(gen_declaration(g, "member"))
-    return ("su", c.choice(["struct", "union"]), g.fresh("N") if c.chance(0.6) else None, members)
+    return ("su", c.choice(["struct", "union"]), g.tag("N") if c.chance(0.6) else None, members)
 
 
 def gen_spec(g, ctx):
